@@ -78,6 +78,16 @@ def str(name: str, maxlen=None):  # noqa: A001
     return SymStr(z)
 
 
+def enum(name: str, cls):
+    """Symbolic member of an Enum class (no fork until something forces it)."""
+    members = list(cls)
+    if CONC is not None:
+        return members[CONC.valuation[name]]
+    from .values import SymEnum
+    i = int(name, 0, len(members) - 1)
+    return SymEnum(cls, i.z)
+
+
 def choice(name: str, pool):
     """Symbolic index into a concrete pool; forks per feasible index."""
     i = int(name, 0, len(pool) - 1)
@@ -93,6 +103,9 @@ def concretize(x):
     if isinstance(x, SymBool):
         return x.__bool__()
     if isinstance(x, SymStr):
+        return x.concretize()
+    from .values import SymEnum
+    if isinstance(x, SymEnum):
         return x.concretize()
     return x
 
